@@ -110,7 +110,7 @@ def band_event(ev, s, o, g, fn_name, a, alpha, sampler, method, np_seed):
         c = fns[fn_name](s, alpha=alpha / 1000.0, config=cfg, **kw)
         e["out"]["inputs_untouched"] = bool(all(np.array_equal(kw[k_], v_) for k_, v_ in keep.items())
                                             and np.array_equal(s.pos, pos_before) and np.array_equal(s.neg, neg_before))
-        th = np.asarray(c.thresholds, dtype=float)
+        th = np.asarray(c.thresholds)               # as returned (extended precision stays extended)
         n = len(th)
         m = np.asarray(s.cm(th).matrix)
         r = e["out"]
@@ -205,7 +205,7 @@ def run(ctx: core.Ctx):
     tables = core.VERIF / "gen" / "tables.json"
     ctx.model("MC_C16", MC_CFG.format(**par), env={"TABLES_FILE": tables}, timeout=7200)
     cases = objects(par)
-    fam = [gamma.ident(), gamma.affine(2.0, 1.0)]
+    fam = [gamma.ident(), gamma.affine(2.0, 1.0), gamma.ident_ld()]
     ids = iter(range(1, 10**9))
     events = []
     for cid, o in enumerate(cases):
